@@ -53,7 +53,13 @@ func main() {
 			go func() { time.Sleep(40 * time.Second); pprof.StopCPUProfile(); os.Exit(0) }()
 		}
 		t0 := time.Now()
-		P, err := gse.Load("/repo", "/verif/harness")
+		pk := []string{"grits/types", "grits/process", "grits/parser"}
+		for _, name := range fs.Args() {
+			if strings.HasPrefix(name, "cmd.") {
+				pk = append(pk, "grits/cmd")
+			}
+		}
+		P, err := gse.Load("/repo", "/verif/harness", pk...)
 		if err != nil {
 			fmt.Println(err)
 			os.Exit(2)
